@@ -187,7 +187,8 @@ func (msg MsgInitiateTokenDeposit) Validate(ac address.Codec) error {
 	}
 
 	// allow zero amount for creating account
-	if !msg.Amount.IsValid() {
+	// the withdrawal commitment carries the amount as uint64, so larger amounts can never be refunded
+	if !msg.Amount.IsValid() || !msg.Amount.Amount.IsUint64() {
 		return ErrInvalidAmount
 	}
 
@@ -244,7 +245,7 @@ func (msg MsgFinalizeTokenWithdrawal) Validate(ac address.Codec) error {
 		return err
 	}
 
-	if !msg.Amount.IsValid() || msg.Amount.IsZero() {
+	if !msg.Amount.IsValid() || msg.Amount.IsZero() || !msg.Amount.Amount.IsUint64() {
 		return ErrInvalidAmount
 	}
 
